@@ -24,10 +24,17 @@ type c14Inv struct {
 	Args  []string          `json:"args"`
 	Stdin string            `json:"stdin"`
 	Files map[string]string `json:"files,omitempty"` // relative file name in the working directory -> name of its content
+	// Kill: the invocation is not run to completion - its standard output is a pipe nobody reads, and the process
+	// is killed once it blocks in the middle of its output (a crashed / interrupted run); nothing is judged, the
+	// cache directory it leaves behind is the next state
+	Kill bool `json:"killed,omitempty"`
 }
 
 func (i c14Inv) String() string {
 	s := "gts " + strings.Join(i.Args, " ") + " < " + i.Stdin
+	if i.Kill {
+		s = "KILLED-MID-OUTPUT: " + s
+	}
 	if len(i.Files) > 0 {
 		var fs []string
 		for n, c := range i.Files {
@@ -99,6 +106,9 @@ func c14Setup() {
 				q.Table[1].Props = gts.Props{{"gene", "g1"}, {"note", "x", "second", "third"}, {"db_xref", "a:1", "b:2"}}
 				return q.String()
 			}()),
+			// a long record followed by a short one (a locator valid for the first fails on the second after >32 KiB of output), and by a truncated one
+			"BIGLS": []byte(c14Record("BIGR", strings.Repeat("acgtacggtacctagcatgcaagtacgtacggtacctagca", 1100), false, 3).String() + a.String()),
+			"BIGTRUNC": []byte(c14Record("BIGR", strings.Repeat("acgtacggtacctagcatgcaagtacgtacggtacctagca", 1100), false, 3).String() + a.String()[:len(a.String())-40]),
 			"file:g1": []byte(">g1\nttt\n"), "file:g2": []byte(">g2\nccc\n"),
 			"file:h1": []byte(b.String()), "file:h2": []byte(c14Record("HOST2", "ggggccccaaaatttt", false, 0).String()),
 			"file:q1": []byte(">q\nacg\n"), "file:q2": []byte(">q\ncat\n"),
@@ -393,6 +403,11 @@ func c14StepOuts(inv c14Inv, st clidrv.State, outs map[string][]byte, hist []c14
 }
 
 func c14StepInner(inv c14Inv, st clidrv.State, outs map[string][]byte, hist []c14Inv) (clidrv.State, map[string][]byte, bool, string, string) {
+	if inv.Kill {
+		ns, blocked := clidrv.RunKilled(c14Args(inv.Args), c14Inputs[inv.Stdin], st, inv.files())
+		engine.Outcome(fmt.Sprintf("killed|%v|%s", blocked, ns.Key()))
+		return ns, outs, true, "", ""
+	}
 	var prior []byte
 	if n := c14OutName(inv); n != "" {
 		prior = outs[n]
@@ -453,7 +468,7 @@ func init() {
 			}
 			thorough := r.Tier == "thorough"
 			sigma := c14Alphabet(thorough)
-			r.Rule = fmt.Sprintf("explicit-state search on the gts binary built from the tree: state = content of the cache directory (initially empty), alphabet = %d invocations (all 19 cached subcommands, each boolean option toggled, valued options at two values, secondary files at two contents, stdin among {record A, record B, multi-record, garbage, truncated record, FASTA}, stdout and -o outputs); level 1: every invocation on the empty cache (cold) and repeated (warm); level 2: every ordered pair; deeper levels breadth-first inside command families, de-duplicated on the directory state; oracle on every transition: stdout, -o file and exit status equal the --no-cache run; distinct key = (state, invocation); non-trivial = state non-empty", len(sigma))
+			r.Rule = fmt.Sprintf("explicit-state search on the gts binary built from the tree: state = content of the cache directory (initially empty), alphabet = %d invocations (all 19 cached subcommands, each boolean option toggled, valued options at two values, secondary files at two contents, stdin among {record A, record B, multi-record, garbage, truncated record, FASTA}, stdout and -o outputs); level 1: every invocation on the empty cache (cold) and repeated (warm); level 2: every ordered pair; deeper levels breadth-first inside command families, de-duplicated on the directory state; killed runs: invocations with more than 4 KiB of output interrupted (SIGKILL) while blocked on their output, leaving a real unfinalised entry, in histories [kill k; j; j|k] and [j; kill k; k; j|k]; oracle on every transition: stdout, -o file and exit status equal the --no-cache run; distinct key = (state, invocation); non-trivial = state non-empty", len(sigma))
 			r.Extra["alphabet"] = len(sigma)
 			// references + vacuity guard
 			r.ParallelFor(len(sigma), func(i int) { c14Ref(sigma[i]) })
@@ -569,6 +584,65 @@ func init() {
 					complete = complete && done
 					frontier = next
 				}
+			}
+			// killed runs: an invocation interrupted in the middle of its output leaves an unfinalised entry behind;
+			// histories [kill k ; j ; j'] and [j ; kill k ; k ; j] over the invocations with more than 4 KiB of output
+			if complete {
+				var big []c14Inv
+				add := func(stdin string, args ...string) { big = append(big, c14Inv{Args: args, Stdin: stdin}) }
+				add("BIG", "reverse")
+				add("BIGFA", "reverse")
+				add("BIG", "complement", "-F", "fasta")
+				add("BIG", "extract", "5..44000")
+				add("BIGLS", "delete", "30000..30010")
+				add("BIGLS", "extract", "30000..30010")
+				add("BIGLS", "rotate", "30000")
+				add("BIGTRUNC", "clear")
+				add("BIGTRUNC", "reverse")
+				add("BIGLS", "reverse")
+				r.Extra["killed_run_alphabet"] = len(big)
+				r.ParallelFor(len(big), func(i int) { c14Ref(big[i]) })
+				nb := len(big)
+				// [kill k ; j ; j or k]
+				killed := make([]node, nb)
+				done := r.ParallelFor(nb, func(k int) {
+					kv := big[k]
+					kv.Kill = true
+					killed[k], _ = judge(kv, node{clidrv.State{}, nil, nil})
+				})
+				complete = complete && done
+				done = r.ParallelFor(nb*nb, func(idx int) {
+					k, j := idx/nb, idx%nb
+					n1, ok1 := judge(big[j], killed[k])
+					if !ok1 {
+						return
+					}
+					n2, ok2 := judge(big[j], n1)
+					if ok2 {
+						judge(big[k], n2)
+					}
+					if k != j {
+						judge(big[k], n1)
+					}
+				})
+				complete = complete && done
+				// [j ; kill k ; k ; j]
+				done = r.ParallelFor(nb*nb, func(idx int) {
+					k, j := idx/nb, idx%nb
+					n1, ok1 := judge(big[j], node{clidrv.State{}, nil, nil})
+					if !ok1 {
+						return
+					}
+					kv := big[k]
+					kv.Kill = true
+					n2, _ := judge(kv, n1)
+					n3, ok3 := judge(big[k], n2)
+					if ok3 {
+						judge(big[j], n3)
+						judge(big[k], n3)
+					}
+				})
+				complete = complete && done
 			}
 			r.Extra["family_depth"] = depth
 			// across families: breadth-first over a core alphabet (one or two invocations per subcommand) to depth 3 (quick) / 4 (thorough),
